@@ -58,6 +58,19 @@ def work(args):
                     rec['off'] = [(p, impl.call(lambda q: impl.Pt(q) in P, p)) for p in off]
                     g = P.general_form()
                     rec['gf_back'] = impl.call(lambda: Plane(*g) == P)
+                    # the same plane after an in-place move: the forms must describe the MOVED plane
+                    mv = tuple(F(R.randint(-3, 3)) for _ in range(3))
+                    P2 = Plane(*[float(x) for x in (a, b, c, d)])
+                    P2.move(impl.Vc(mv))
+                    d2 = d + a * mv[0] + b * mv[1] + c * mv[2]
+                    on2, off2 = probes(R, a, b, c, d2)
+
+                    def moved_forms():
+                        Q = Plane(*P2.general_form())
+                        pn = P2.point_normal()
+                        u, v, w = P2.parametric()
+                        return (Q == P2, Plane(Point(pn[0]), pn[1]) == P2, Plane(Point(u), v, w) == P2, all(impl.Pt(x) in Q for x in on2), not any(impl.Pt(x) in Q for x in off2))
+                    rec['moved'] = impl.call(moved_forms)
             elif kind == 1:   # lattice plane in every pose: all forms
                 p = G.pt(4)
                 nrm = G.dirv(3)
@@ -149,6 +162,8 @@ def run(ctx, scale=1):
                     problems.append('point (%s) violates the equation but `in` gives %s' % (gen.tv(p), res[1:]))
             if r['gf_back'] != ('ok', True):
                 problems.append('Plane(*P.general_form()) == P gives %s' % (r['gf_back'][1:],))
+            if r.get('moved') != ('ok', (True, True, True, True, True)):
+                problems.append('after P.move(v): (general_form, point_normal, parametric round trips, probes on, probes off) = %s' % (r['moved'][1:] if r['moved'][0] != 'ok' else r['moved'][1],))
         if problems:
             ctx.stats['DISAGREE general form'] += 1
             ctx.violation(key, key + ': ' + '; '.join(problems[:3]), dict(kind=0, gf=gen.jsonable(list(r['gf']))))
